@@ -76,6 +76,32 @@ class RowWatch:
         return bad
 
 
+def job_state_anomalies(samples, jobs) -> list[dict]:
+    """Jobs during which the row of their step went through states that the job itself cannot produce.
+
+    While a job is in flight the only writer of its step's state is the job: a RUN job keeps the row RUNNING
+    and ends it SUCCEEDED, FAILED or PENDING (deferral); a SKIP / VALIDATE_DYNAMIC job keeps it CHECKING and
+    ends it SUCCEEDED or PENDING.  Any other sequence means that the row was re-initialised under the job
+    (the step was redefined by its re-running creator): F9.  `samples`: (commit, time, label -> state)."""
+    bad = []
+    for job in jobs:
+        if job.completed is None:
+            continue
+        seq = []
+        for k, t, rows in samples:
+            if job.dispatched < t < job.completed and job.label in rows:
+                if not seq or seq[-1] != rows[job.label]:
+                    seq.append(rows[job.label])
+        busy = RUNNING if job.kind == "RUN" else 25
+        finals = (23, 24, 21) if job.kind == "RUN" else (23, 21)
+        ok = seq in ([], [busy]) or (len(seq) == 1 and seq[0] in finals) or \
+            (len(seq) == 2 and seq[0] == busy and seq[1] in finals)
+        if not ok:
+            bad.append({"step": job.label, "job": job.job_i, "kind": job.kind, "states": seq,
+                        "window": [job.dispatched, job.completed]})
+    return bad
+
+
 def jobs_in_flight_twice(jobs) -> list[dict]:
     """Steps with two jobs (RUN, SKIP or VALIDATE_DYNAMIC) in flight at the same time: the row of a step
     whose job is in flight was re-initialised (F9), so the scheduler dispatched it again."""
